@@ -517,6 +517,9 @@ class AnsiString:
             match_case - set to True to make matching case-sensitive (false by default)
             count - the number of matches to format or -1 to match all
         '''
+        if isinstance(matchspec, AnsiStr):
+            # The pattern is a plain str: take the text of an AnsiStr, not its rendered value
+            matchspec = matchspec.base_str
         if not regex:
             matchspec = re.escape(matchspec)
 
@@ -548,6 +551,9 @@ class AnsiString:
             match_case - set to True to make matching case-sensitive (false by default)
             count - the number of matches to unformat or -1 to match all
         '''
+        if isinstance(matchspec, AnsiStr):
+            # The pattern is a plain str: take the text of an AnsiStr, not its rendered value
+            matchspec = matchspec.base_str
         if not regex:
             matchspec = re.escape(matchspec)
 
